@@ -50,7 +50,7 @@ def public_wiring_eval(run, model, ao, pe):
                         me.__dict__[pe.name] = timed
                         ev_ = pureeval.Obj(signal_name='E')
                         try:
-                            got = pureeval.call(f.node, [me, ev_, period, times, deferred], globals_={'super': (lambda: sup), 'None': None, 'True': True, 'False': False},
+                            got = pureeval.call(f.node, [me, ev_, period, times, deferred], globals_=dict(pureeval.module_constants(model, ao.module), super=(lambda: sup)),
                                                 methods={k: v for k, v in methods.items() if k != pe.name}, strict_locals=True, module_names=modnames, mutable=True)
                         except pureeval.Raised as ex_:
                             got = 'raises ' + ex_.what
